@@ -67,7 +67,7 @@ Theorem save_obj_stream f c t pad cb f' : ogg_wf f = true -> ogg_save_obj f c t 
     ogg_unnumbered T' = ogg_unnumbered T /\ zlen (filter (not_serial s) pages') = zlen (filter (not_serial s) pages).
 Proof.
   intros H S. destruct (wf_parse f H) as (pages & P & St).
-  destruct (save_obj_step f c t pad cb f' pages P St S) as (olds & news & k & K & P' & _ & O & V1 & V2 & NK & _).
+  destruct (save_obj_step f c t pad cb f' pages P St S) as (olds & news & k & K & P' & _ & O & V1 & V2 & NK & _ & _).
   exists pages, (cut_result k news), (cut_s k), (filter (is_serial (cut_s k)) (cut_before k)), (map fst (cut_run k)),
     (cut_prepared k news), (filter (is_serial (cut_s k)) (cut_gn k)), (filter (is_serial (cut_s k)) (cut_tail k news)).
   destruct NK as (Hne & _).
